@@ -403,3 +403,34 @@ func VerifC11_Reopen() {
 	}
 	verifrt.Assert(led.Opened == led.Closed, "reopen.all-released")
 }
+
+// C13 (fault, then a later request): the first open of an encrypted image meets I/O faults and short reads while its
+// key file is read (every operation on the key file may fail); whatever that open returned, a second open of the
+// same path through the same FS value - the faults gone - decrypts with the key that is in the key file.
+func VerifC13_ReopenAfterKeyFault() {
+	verifrt.NativeUnsupported("AES is replaced by engine-injected cipher stubs")
+	const path, adjacent = "/PS3ISO/g.iso", "/PS3ISO/g.dkey"
+	led := &verifstub.Ledger{}
+	size := verifrt.Int64("size")
+	verifrt.Assume(size >= 0x3000)
+	verifrt.Assume(size < 1<<40)
+	verifrt.Assume(size%2048 == 0)
+	img := &verifstub.File{Label: "img", Size: size}
+	verifrt.Assume(verifBE32("img", 0) <= 2) // bound: region tables of at most 2 plain regions
+	keyFile := &verifstub.File{Data: []byte(verifKeyAHex), Size: 32, Faults: true, ShortBudget: 1}
+	bfs := &verifstub.Fs{L: led, Entries: []*verifstub.Entry{{Path: path, File: img}, {Path: adjacent, File: keyFile}}}
+	fsys := &FS{Fs: bfs}
+	if f, err := fsys.OpenFile(path, os.O_RDONLY, 0); err == nil {
+		_ = f.Close()
+	}
+	keyFile.Faults, keyFile.ShortBudget = false, 0
+	verifDerive.calls = 0
+	f, err := fsys.OpenFile(path, os.O_RDONLY, 0)
+	if err != nil {
+		return // an invalid region table is refused, as in a single open
+	}
+	_, enc := f.(*EncryptedISO)
+	verifrt.Assert(enc && verifDerive.calls == 1 && verifDerive.input == verifKeyA, "keyfault.second-open-uses-the-real-key")
+	_ = f.Close()
+	verifrt.Assert(led.Opened == led.Closed, "keyfault.all-released")
+}
